@@ -297,12 +297,30 @@ namespace c14 {
          fill_ref(s, rest, decl);
          return view_line<ipr::Decl>(s, lab);
       }
-      if (impl_name == "warehouse" or impl_name == "warehouse-product") {
-         impl::Warehouse<ipr::Type> w(lead);
-         for (std::size_t i = 0; i < rest.size(); ++i) { auto& t = c.T(); lab.put(t, "e" + std::to_string(i)); w.push_back(t); }
-         if (impl_name == "warehouse") return view_line<ipr::Type>(w.rep(), lab);
-         impl::Lexicon fresh_lexicon;                      // empty unification tables: building the product compares nothing
-         const ipr::Product& p = fresh_lexicon.get_product(w);
+      if (impl_name == "warehouse" or impl_name == "warehouse-product" or impl_name == "warehouse-sum") {
+         auto fill = [&](impl::Warehouse<ipr::Type>& w) {
+            for (std::size_t i = 0; i < rest.size(); ++i) { auto& t = c.T(); lab.put(t, "e" + std::to_string(i)); w.push_back(t); }
+         };
+         if (impl_name == "warehouse") { impl::Warehouse<ipr::Type> w(lead); fill(w); return view_line<ipr::Type>(w.rep(), lab); }
+         impl::Lexicon fresh_lexicon;                      // empty unification tables: building the product / sum compares nothing
+         // the client's Warehouse is gone, and its storage overwritten, before the node is read (the Lexicon keeps what it needs)
+         auto made_from_a_warehouse_that_dies = [&](auto get) {
+            auto w = std::make_unique<impl::Warehouse<ipr::Type>>(lead);
+            fill(*w);
+            auto* node = &get(*w);
+            w.reset();
+            std::vector<std::unique_ptr<impl::Warehouse<ipr::Type>>> over;
+            for (int k = 0; k < 8; ++k) { over.push_back(std::make_unique<impl::Warehouse<ipr::Type>>(3)); over.back()->push_back(c.lex.int_type()); }
+            return node;
+         };
+         if (impl_name == "warehouse-sum") {
+            const ipr::Sum& sm = *made_from_a_warehouse_that_dies([&](auto& w) -> const ipr::Sum& { return fresh_lexicon.get_sum(w); });
+            std::string line = view_line<ipr::Type>(sm.elements(), lab);
+            std::string idx = "\n@index=[";
+            for (std::size_t i = 0; i < sm.size() + 1; ++i) idx += (i ? "," : "") + guardL([&] { return lab.get(sm[i]); });
+            return line + idx + "]";
+         }
+         const ipr::Product& p = *made_from_a_warehouse_that_dies([&](auto& w) -> const ipr::Product& { return fresh_lexicon.get_product(w); });
          std::string line = view_line<ipr::Type>(p.elements(), lab);
          std::string idx = "\n@index=[";
          for (std::size_t i = 0; i < p.size() + 1; ++i) idx += (i ? "," : "") + guardL([&] { return lab.get(p[i]); });
